@@ -29,6 +29,11 @@ class BaseCore : public InlineCore {
     return callback == kEmpty;
   }
 
+  bool Ready() const noexcept {
+    auto callback = _callback.load(std::memory_order_acquire);
+    return callback == kResult;
+  }
+
   template <bool Shared>
   void TransferExecutorTo(BaseCore& callback) noexcept {
     if (!callback._executor) {
